@@ -229,7 +229,9 @@ class _MQHarness:
         k = changed[0]
         m = self.q.get_message(self.ids[k])
         d = len(self.tickets)
-        c = int(m.consumer.name[1:])
+        # the consumer the queue reports for the message it has just marked DELIVERED (public Message.consumer);
+        # a message marked delivered to nobody is reported as consumer UNKNOWN
+        c = int(m.consumer.name[1:]) if m.consumer is not None else UNKNOWN
         self.tickets.append(dict(d=d, k=k, c=c, t0=self.now()))
         self.log(label, f"disp {d} {k} {c} {m.delivery_count}")
         try:
@@ -325,8 +327,37 @@ def gen_mq_life(rng: random.Random, tier: str) -> dict:
         ops.append([t, "poll"])
         t_recv = t + lat_ns
         t = t_recv + rng.choice([0, 1, 1000, lat_ns + 1])       # the consumer works on it
-        detour = rng.choice(["flight", "tmo", "tmo", "tmo", "tmo", "requeue", "dead", "tmo2", "orphan", "orphan"])
+        detour = rng.choice(["flight", "tmo", "tmo", "tmo", "tmo", "requeue", "dead", "tmo2", "orphan", "orphan", "vanish", "vanish"])
         due = None
+        if detour == "vanish":
+            # every consumer unsubscribes INSIDE the delivery-latency window of the poll (or exactly at its ends, ±1 ns),
+            # comes back later and polls: the delivery that was under way must still arrive (or the message must be
+            # offered again) — never in flight with no delivery event; then the usual timeout / redelivery cycle, with the
+            # consumers leaving again inside the latency window of the redelivery
+            t_poll = t_recv - lat_ns
+            t_leave = rng.choice([t_poll, t_poll + 1, t_poll + lat_ns // 2, t_recv - 1, t_recv, t_recv + 1])
+            for c in range(ncons):
+                if rng.random() < 0.9:
+                    ops.append([t_leave, "unsub", c])
+            t_back = t_recv + rng.choice([1, 1000, rd // 4])
+            for c in rng.sample(range(ncons), rng.randint(1, ncons)):
+                ops.append([t_back, "sub", c])
+            ops.append([t_back + rng.choice([0, 1]), "poll"])
+            tt = t_back + lat_ns + rng.choice([2, 1000])
+            ops.append([tt, "tmo", k])
+            due = tt + rd
+            if rng.random() < 0.6:
+                t_leave2 = rng.choice([due, due + 1, due + lat_ns // 2, due + lat_ns - 1]) if lat_ns else due
+                for c in range(ncons):
+                    ops.append([t_leave2, "unsub", c])
+                for c in range(ncons):
+                    ops.append([due + lat_ns + rng.choice([1, 1000]), "sub", c])
+            tt = due + 2 * lat_ns + 2000
+            ops.append([tt, "poll"])
+            ops.append([tt + lat_ns + 1, rng.choice(["ack", "tmo"]), k])
+            for c in range(ncons):
+                ops.append([tt + lat_ns + 2, "sub", c])
+            continue
         if detour == "orphan":
             # the redelivery timer fires while nobody is subscribed: timeout, every consumer leaves before the timer is
             # due (or right at / after it), the timer finds no consumer, consumers come back, a poll hands the message out,
@@ -907,7 +938,8 @@ class C19(core.Property):
             "a detour (still in flight / visibility timeout / double timeout / reject-requeue / dead-letter) and then the "
             "acknowledgement placed before, at and after the instant the redelivery event is due (±1 ns, ±latency), racing polls, "
             "double acks, acks of neighbouring or unknown ids, polls afterwards; or an orphaned redelivery: timeout, all consumers unsubscribe around the instant the "
-            "redelivery timer is due (±1 ns), consumers return, poll, then 1–4 further timeout / redelivery cycles up to the limit. family assign (2/10): sequences of assign() calls on one strategy "
+            "redelivery timer is due (±1 ns), consumers return, poll, then 1–4 further timeout / redelivery cycles up to the limit; or vanishing consumers: all consumers unsubscribe inside the "
+            "delivery-latency window of a poll or of a redelivery (start, +1 ns, middle, end ±1 ns), return and poll again. family assign (2/10): sequences of assign() calls on one strategy "
             "object (0–8 partitions, ≤6 consumers, shuffled inputs); non-trivial with ≥2 partitions and ≥2 consumers; thorough "
             "tier first enumerates every membership of ≤5 consumers × ≤8 partitions for the three strategies, every ordered pair "
             "(5 consumers) and triple (4 consumers) of memberships for sticky. family stream (2/10): ≤36 append/read/join/leave/"
